@@ -29,8 +29,8 @@ impl Property for C20 {
     }
     fn config(&self, tier: Tier) -> PropConfig {
         match tier {
-            Tier::Quick => PropConfig { cases: 4_000, max_tape: 16, shards: 8 },
-            Tier::Thorough => PropConfig { cases: 100_000, max_tape: 16, shards: 16 },
+            Tier::Quick => PropConfig { cases: 30000, max_tape: 16, shards: 12 },
+            Tier::Thorough => PropConfig { cases: 480000, max_tape: 16, shards: 16 },
         }
     }
     fn run_case(&self, reg: &Registry, shape: usize, tape: &[u8], st: &mut Stats) -> CaseResult {
